@@ -249,7 +249,7 @@ func cmdRun(args []string) {
 		opt := sim.Options{Tier: *tier, WantSample: run-*from < *samples}
 		t0 := time.Now()
 		res, mustExit := execute(s, c, opt)
-		rec := sim.Record{Prop: s.Prop(), Scenario: s.Name(), Seed: *seed, Run: run, Result: res, Race: RaceEnabled, WallUS: time.Since(t0).Microseconds()}
+		rec := sim.Record{Prop: s.Prop(), Scenario: s.Name(), Seed: *seed, Run: run, Tier: *tier, Result: res, Race: RaceEnabled, WallUS: time.Since(t0).Microseconds()}
 		if res.Violation != nil || *traces {
 			rec.Trace = c.Trace()
 		}
@@ -323,10 +323,13 @@ func cmdReplay(args []string) {
 	}
 	t := *tier
 	if t == "" {
+		t = rec.Tier
+	}
+	if t == "" {
 		t = "quick"
 	}
 	res, trace, _ := replayOnce(s, choice.Values(rec.Trace), t)
-	out := sim.Record{Prop: rec.Prop, Scenario: rec.Scenario, Seed: rec.Seed, Run: rec.Run, Result: res, Trace: trace, Race: RaceEnabled}
+	out := sim.Record{Prop: rec.Prop, Scenario: rec.Scenario, Seed: rec.Seed, Run: rec.Run, Tier: t, Result: res, Trace: trace, Race: RaceEnabled}
 	if *valsOnly {
 		w := bufio.NewWriter(os.Stdout)
 		emit(w, out)
@@ -391,7 +394,7 @@ func cmdShrink(args []string) {
 			return trace, false
 		}
 		// fresh process per candidate
-		cand := sim.Record{Prop: rec.Prop, Scenario: rec.Scenario, Seed: rec.Seed, Run: rec.Run, Result: rec.Result}
+		cand := sim.Record{Prop: rec.Prop, Scenario: rec.Scenario, Seed: rec.Seed, Run: rec.Run, Tier: *tier, Result: rec.Result}
 		for _, v := range vals {
 			cand.Trace = append(cand.Trace, choice.Entry{V: v})
 		}
@@ -428,6 +431,7 @@ func cmdShrink(args []string) {
 	// final confirmation run to get the result that belongs to min
 	tr, ok := test(choice.Values(min))
 	final := rec
+	final.Tier = *tier
 	if ok {
 		final.Trace = tr
 		final.Result = lastRes
